@@ -56,7 +56,7 @@ def gen_case(rng):
     r = rng.random()
     if r < 0.35:
         pass
-    elif r < 0.8:
+    elif r < 0.93:
         for k in BOOL_OPTS:
             if k in HP_OPTS:
                 continue
@@ -115,9 +115,13 @@ def service_oracle(case):
         cause = None
         if hp and any("heat_pump_targeting" in f.filename or "simple_heat_pump" in f.filename for f in tb):
             cause = "hp_targeting_raises"
+        zero_dt = any(float(val(x.get("dt_cont", 1.0)) or 0.0) == 0.0 for x in pr["streams"] + pr["utilities"])
+        if opts.get("DO_AREA_TARGETING") and zero_dt and isinstance(e, ValueError) and "Invalid temperature differences" in str(e):
+            cause = "area_zero_driving_force"
         fails.append(("service_total", f"raised {type(e).__name__}: {str(e)[:120]} at {where} (shape {case.get('shape')}, options {opts})", cause))
         return fails, None
-    cause_hp = "hp_targeting_output" if hp else None
+    cause_hp = None
+    cause_rep = "hp_targeting_nondeterministic" if hp else None
     # validates against the output schema and is JSON-serialisable
     try:
         d = out.model_dump(mode="json")
@@ -145,7 +149,8 @@ def service_oracle(case):
     for t in d["targets"]:
         for k in ("cold_temp", "hot_temp"):
             v = (t.get("temp_pinch") or {}).get(k)
-            if v is not None and not (lo - 1e-6 <= v <= hi + 1e-6):
+            # an isothermal stream or utility is represented with a 0.01 K glide, which may carry a site pinch
+            if v is not None and not (lo - 0.0101 <= v <= hi + 0.0101):
                 fails.append(("temperatures_in_envelope", f"{t['name']} {k} = {v} outside [{lo}, {hi}]", None))
     # default utilities are placed one default contribution and one phase-change step beyond the extreme streams
     extra = float(opts.get("DT_CONT", 5.0)) + float(opts.get("DT_PHASE_CHANGE", 0.1)) + 0.02
@@ -166,9 +171,9 @@ def service_oracle(case):
             warnings.simplefilter("ignore")
             out2 = pinch_analysis_service(json.loads(json.dumps(pr)), "P")
         if json.dumps(out2.model_dump(mode="json"), sort_keys=True, default=str) != json.dumps(out.model_dump(mode="json"), sort_keys=True, default=str):
-            fails.append(("repeatable", "a second call on the same input returned a different result", cause_hp))
+            fails.append(("repeatable", "a second call on the same input returned a different result", cause_rep))
     except Exception as e:  # noqa: BLE001
-        fails.append(("repeatable", f"the second call raised {type(e).__name__}", cause_hp))
+        fails.append(("repeatable", f"the second call raised {type(e).__name__}", cause_rep))
     return fails, out
 
 
